@@ -352,6 +352,13 @@ func (i Interval) Expanded(margin float64) Interval {
 	if result.Lo <= -math.Pi {
 		result.Lo = math.Pi
 	}
+	if margin >= 0 && !result.ContainsInterval(i) {
+		// The rounding errors of the two endpoints made them cross, which
+		// can only happen when the exact result is full to within rounding
+		// (the test above compares sums whose own rounding error is larger
+		// than the 2*dblEpsilon it allows for).
+		return FullInterval()
+	}
 	return result
 }
 
